@@ -11,7 +11,14 @@ package cwriter
 // terminal sizes reported by the OS are assumed to be within [0, 2^31]
 //@ functype cwriter_Writer.termSize
 //@   modifies nothing
-//@   ensures  0 <= result0 && result0 <= 1<<31 && 0 <= result1 && result1 <= 1<<31
+//@   ensures  result2 == nil ==> 0 <= result0 && result0 <= 1<<31 && 0 <= result1 && result1 <= 1<<31
+
+// the terminal's size as the kernel reports it: columns are the width, rows the height
+//@ func GetSize
+//@   props    C04 C07 C02
+//@   modifies nothing
+//@   ensures  dims: err == nil ==> width == returned("golang.org/x/sys/unix.IoctlGetWinsize", 0).Col && height == returned("golang.org/x/sys/unix.IoctlGetWinsize", 0).Row
+//@   ensures  failed: err != nil ==> returned("golang.org/x/sys/unix.IoctlGetWinsize", 1) != nil
 
 //@ func (escWriter).ansiCuuAndEd
 //@   props    C04 C02
@@ -39,7 +46,9 @@ package cwriter
 //@   props    C04 C02
 //@   requires w != nil
 //@   modifies nothing
-//@   ensures  0 <= width && width <= 1<<31 && 0 <= height && height <= 1<<31
+//@   ensures  err == nil ==> 0 <= width && width <= 1<<31 && 0 <= height && height <= 1<<31
+//@   ensures  asked: called("cwriter_Writer.termSize") == old(called("cwriter_Writer.termSize")) + 1 && calledWith("cwriter_Writer.termSize", 0) == w.fd
+//@              && width == returned("cwriter_Writer.termSize", 0) && height == returned("cwriter_Writer.termSize", 1) && err == returned("cwriter_Writer.termSize", 2)
 
 // New is not verified (copy into a byte slice is outside the string model): its contract is
 // assumed and listed as such.
